@@ -38,7 +38,8 @@ ASSUMPTIONS = [
 def cases(rng, tier):
     return [c for c in S.gen_cases(rng, tier, 250 if tier == "quick" else 3500) if c["mode"] == "roundtrip"] \
         + S.anyof_optional_cases(random.Random("aopt" + str(rng.getstate()[1][0])), 60 if tier == "quick" else None) \
-        + X.directed_cases() + X.gen_cases(rng, 300 if tier == "quick" else 6000)
+        + X.directed_cases() + X.gen_cases(rng, 300 if tier == "quick" else 6000) \
+        + X.directed_undef_cases() + X.undef_cases(random.Random("undef" + str(rng.getstate()[1][0])), 100 if tier == "quick" else 2000)
 
 
 def search_cases(rng, tier):
@@ -92,10 +93,21 @@ def judge(case, impl, model):
                 fails.append((f"not-pure-json:{site}", "serialized form contains non-JSON Python objects: " + json.dumps(impl["ser"]["ok"])[:300]))
             if not impl.get("ser_fn_same"):
                 fails.append((f"serialize-fn-differs:{site}", "serialize(x) != Serializer(x).serialize()"))
+            if impl.get("ser_field_diffs") not in (None, []):
+                fails.append((f"serialize-field-differs:{site}", f"serialize_field(Class.f, x.f) is not field f's part of Serializer(x).serialize(): {impl['ser_field_diffs']}"))
             if "ok" not in impl.get("back", {}):
                 fails.append((f"roundtrip-raises:{site}", f"Deserializer rejects the serialized form: {impl['back'].get('err')}: {impl['back'].get('msg')}; doc " + json.dumps(impl["ser"]["ok"])[:300]))
             elif not impl.get("eq"):
                 fails.append((f"roundtrip-differs:{site}", "deserialize(serialize(x)) != x: x=" + json.dumps(impl["inst"])[:250] + " back=" + json.dumps(impl["back"]["ok"])[:250]))
+            # through JSON text: json.dumps turns the non-string keys of a Map[Integer | Float | Boolean | ..., X] into
+            # strings, which the key field then refuses (or reads as another key)
+            tb = impl.get("text_back")
+            if tb is not None and "ok" in impl.get("back", {}) and impl.get("eq") and tb.get("ok") is not True:
+                nk = sorted(S.nonstring_map_keys(case["cls"]))
+                where = ("map-key:" + nk[0]) if nk else site
+                fails.append((f"text-roundtrip-fails:{where}", "Deserializer(cls).deserialize(json.loads(json.dumps(Serializer(x).serialize()))) "
+                              + (f"raises {tb.get('err')}: {tb.get('msg')}" if "err" in tb else "!= x") + " although the round trip of the Python document succeeds; doc "
+                              + json.dumps(impl["ser"]["ok"])[:250]))
     elif S.lossy_only(case["cls"]):
         if "ok" in impl["ser"] and "ok" in impl.get("back", {}):
             s2 = impl.get("ser2", {})
